@@ -24,6 +24,7 @@ import (
 	"testing/synctest"
 	"time"
 
+	utls "github.com/refraction-networking/utls"
 	fingerproxy "github.com/wi1dcard/fingerproxy"
 	"github.com/wi1dcard/fingerproxy/pkg/http2"
 	"github.com/wi1dcard/fingerproxy/pkg/proxyserver"
@@ -169,6 +170,7 @@ type World struct {
 	ConnStates    []string
 	Aux           any
 	Actors        []*Actor
+	sessCaches    map[int]utls.ClientSessionCache
 	OnTeardown    func()
 }
 
@@ -445,6 +447,18 @@ func (w *World) countCallbackFrom(name, remote string) int {
 		return 0
 	}
 	return w.countCallback(name)
+}
+
+func (w *World) sessionCache(group int) utls.ClientSessionCache {
+	w.mu.Lock()
+	defer w.mu.Unlock()
+	if w.sessCaches == nil {
+		w.sessCaches = map[int]utls.ClientSessionCache{}
+	}
+	if w.sessCaches[group] == nil {
+		w.sessCaches[group] = utls.NewLRUClientSessionCache(4)
+	}
+	return w.sessCaches[group]
 }
 
 func (w *World) countCallback(name string) int {
